@@ -23,6 +23,7 @@ RULE = ("Hypothesis: trees of VCALENDAR/VEVENT/VTODO/VJOURNAL/VFREEBUSY/VTIMEZON
         "line parser) a value that is not of the property's default type carries the matching VALUE, zoned values carry TZID == zone "
         "key, UTC values end in Z without TZID. Non-trivial: >= 2 properties of >= 2 kinds and a non-default kind or zoned value or "
         "multi-valued name; distinct by hash.")
+RULE += ' Rounds 7-8: to_ical(sorted=False) is parsed and compared too; caller arguments must be unchanged; text/uri/cal-address/integer values are also handed to add() as value objects of the library or of application subclasses carrying their own parameters.'
 ASSUMPTIONS = ["texts contain no backslash and no literal %2C/%3A/%3B/%5C (RC-B region is decided in C05/C07/C08)",
                "RESOURCES is single-valued TEXT in this library's data model"]
 REQUIRED_CLASSES = ["kind:dates-date", "kind:periods", "kind:zoned", "kind:date", "kind:utc-trigger", "multi-valued", "setter", "nested", "extra-params", "list-valued-add", "tzinfo-without-zone-id"]
